@@ -1,6 +1,6 @@
 (* The programs GENERATED from channel.rs (gen/ChanProg.v, rewritten from the source on every run) are the
    programs the channel proofs are about. *)
-Require Import NX.Base.Prelude NX.Base.ListX NX.Model.Chan NX.gen.ChanProg NX.Proofs.ChanInv NX.Proofs.ChanProofs.
+Require Import NX.Base.Prelude NX.Base.ListX NX.Model.Chan NX.gen.ChanProg NX.Proofs.ChanInv NX.Proofs.ChanProofs NX.Proofs.ChanCount.
 
 Lemma chan_gen_is_proved : chan_gen = chan_fixed.
 Proof. reflexivity. Qed.
@@ -19,3 +19,9 @@ Proof. rewrite chan_gen_is_proved. exact (chan_receiver_sleeps_only_when_empty c
 Theorem chan_gen_bounded c n ls :
   let s := c_run chan_gen (c_init c n) ls in cavail s <= cocc s /\ cocc s <= ccap s.
 Proof. rewrite chan_gen_is_proved. exact (chan_bounded c n ls). Qed.
+
+Theorem chan_gen_count_is_queued c n ls :
+  let s := c_run chan_gen (c_init c n) ls in
+  (forall x, inc_pending (spc_ (S_ s x)) = false) -> dec_pending (rpc_ s) = false ->
+  ccount s = Z.of_nat (cavail s).
+Proof. rewrite chan_gen_is_proved. exact (chan_count_is_queued c n ls). Qed.
